@@ -2,6 +2,10 @@
 
 Facts have the form  a < b  or  a <= b  over normalised expression texts.  ``entails`` closes them
 under transitivity (a<b, b<=c |- a<c ...) and answers a goal of the same form.
+
+``Locals`` brings the terms into one spelling first: named temporaries (``samples = self._data``,
+``size = len(samples)``) are looked through, so that facts and goals written over different names of the same
+value meet.
 """
 import ast
 import copy
@@ -73,12 +77,17 @@ def entails(facts, goal):
 class Locals(object):
     """Named temporaries of one function, looked through on demand.
 
-    ``x = <expr>`` (x a local bound only by such plain assignments, not a parameter) lets a later use of ``x`` be
-    read as ``<expr>`` provided this is the only binding of ``x`` reaching the use, ``x`` is bound on every path to
-    it, and no statement in between can change what ``<expr>`` denotes:  a re-binding of a name it reads, a store to an attribute path it reads (or to a prefix of one),
-    and -- when ``<expr>`` is more than a plain ``a.b.c`` path, i.e. computed from the *contents* of objects --
-    a store into / a method call on an object rooted at one of its names.  Attribute paths are treated as
-    fields: stores to different field names do not interfere."""
+    ``x = <expr>`` (x a local bound only by such plain assignments -- also ``a, b = x, y`` -- and not a parameter)
+    lets a later use of ``x`` be read as ``<expr>`` provided this is the only binding of ``x`` reaching the use,
+    ``x`` is bound on every path to it, and no statement in between can change what ``<expr>`` denotes:
+      * a re-binding of a name it reads,
+      * a store to an attribute path it reads (or to a prefix of one),
+      * when ``<expr>`` is a plain ``a.b.c`` path (an alias of an object): a method call on a proper prefix (the
+        owner may re-bind the field),
+      * when it is more than that (computed from the *contents* of objects): a store into, or a method call on, an
+        object the expression reads.
+    Attribute paths are treated as fields: stores to a different field name of the same object do not interfere.
+    Calls that merely receive such an object as an argument are assumed not to mutate it."""
 
     def __init__(self, fnode, cfg, keep=()):
         self.fnode, self.cfg = fnode, cfg
